@@ -246,7 +246,7 @@ func (t *Taint) sameLoadValD(a, b ssa.Value, d int) bool {
 		}
 		return false
 	}
-	if sameLen(a, b) {
+	if sameLen(a, b) || sameSliceVal(a, b) {
 		return true
 	}
 	switch x := a.(type) {
